@@ -238,4 +238,91 @@ example : unixAuthority [99, 111, 97, 112, 58, 47, 47, 104, 47, 37, 122, 122] = 
 -- and it excludes something: "coap://%2Fs" (M: port 0, host "%2Fs"; outside S)
 example : unixAuthority [99, 111, 97, 112, 58, 47, 47, 37, 50, 70, 115] = true := by decide
 
+/-! ### the buffer writers coap_split_path / coap_split_query at full strength (D16b) -/
+
+/-- (P1, coap_split_path) a buffer of `length + 2·segments + 1` bytes (a fortiori D16b's `length + 3·segments`, there
+is at least one segment) never runs out: on every path string with well-formed escapes the segments written are
+exactly S's — cut at '?' / '#', split at '/', decoded once, dot segments resolved; nothing is omitted. -/
+theorem split_path_buf_eq_spec (input : Bytes) (buflen : Nat) (segs : List Bytes)
+    (h : Spec.Uri.splitPath input = some segs)
+    (hb : input.length + 2 * (rawSegs pathStop pathSep input).length + 1 ≤ buflen) :
+    MU.splitPath input buflen = R.ok segs := by
+  unfold Spec.Uri.splitPath at h
+  cases hd : decodeAll (rawSegs pathStop pathSep input) with
+  | none => simp [hd] at h
+  | some ds =>
+    simp [hd] at h
+    rw [← h]
+    exact splitPathBuf_eq input buflen ds hd (Nat.le_trans (usedBy_le_input _ _ input ds hd).1 hb)
+
+/-- the same for coap_split_query -/
+theorem split_query_buf_eq_spec (input : Bytes) (buflen : Nat) (segs : List Bytes)
+    (h : Spec.Uri.splitQuery input = some segs)
+    (hb : input.length + 2 * (rawSegs queryStop querySep input).length + 1 ≤ buflen) :
+    MU.splitQuery input buflen = R.ok segs :=
+  splitQueryBuf_eq input buflen segs h (Nat.le_trans (usedBy_le_input _ _ input segs h).1 hb)
+
+/-- D16b as SPEC_DECISIONS words it: `buflen ≥ length + 3·segments` -/
+theorem split_buf_eq_spec_3n (input : Bytes) (buflen : Nat) :
+    (∀ segs, Spec.Uri.splitPath input = some segs → input.length + 3 * (rawSegs pathStop pathSep input).length ≤ buflen →
+      MU.splitPath input buflen = R.ok segs) ∧
+    (∀ segs, Spec.Uri.splitQuery input = some segs → input.length + 3 * (rawSegs queryStop querySep input).length ≤ buflen →
+      MU.splitQuery input buflen = R.ok segs) := by
+  constructor
+  · intro segs h hb
+    have := (splitAcc_len pathStop pathSep input []).2
+    exact split_path_buf_eq_spec input buflen segs h (by unfold rawSegs at *; omega)
+  · intro segs h hb
+    have := (splitAcc_len queryStop querySep input []).2
+    exact split_query_buf_eq_spec input buflen segs h (by unfold rawSegs at *; omega)
+
+/-- the bound the header file documents ("at least length, but 2 bytes should be added for each segment to handle
+large segments") is enough as long as every decoded segment is shorter than 269 bytes (2-byte option header); a
+segment of ≥ 269 bytes needs the one extra byte of `split_path_buf_eq_spec`.  The sharp condition is `usedBy ds ≤
+buflen`: room for the decoded segments, the dot segments included although they are never written. -/
+theorem split_buf_documented_bound (input : Bytes) (buflen : Nat) (ds : List Bytes) :
+    (decodeAll (rawSegs pathStop pathSep input) = some ds →
+      (usedBy ds ≤ buflen ∨
+       ((∀ d ∈ ds, d.length < 269) ∧ input.length + 2 * (rawSegs pathStop pathSep input).length ≤ buflen)) →
+      MU.splitPath input buflen = R.ok (resolve ds)) ∧
+    (decodeAll (rawSegs queryStop querySep input) = some ds →
+      (usedBy ds ≤ buflen ∨
+       ((∀ d ∈ ds, d.length < 269) ∧ input.length + 2 * (rawSegs queryStop querySep input).length ≤ buflen)) →
+      MU.splitQuery input buflen = R.ok ds) := by
+  constructor
+  · intro hd hb
+    apply splitPathBuf_eq input buflen ds hd
+    rcases hb with hb | ⟨hs, hb⟩
+    · exact hb
+    · exact Nat.le_trans ((usedBy_le_input _ _ input ds hd).2 hs) hb
+  · intro hd hb
+    apply splitQueryBuf_eq input buflen ds hd
+    rcases hb with hb | ⟨hs, hb⟩
+    · exact hb
+    · exact Nat.le_trans ((usedBy_le_input _ _ input ds hd).2 hs) hb
+
+/-- (P2, output side of "without overread", every buffer size incl. those below the documented minimum, every
+input incl. malformed escapes) the buffer writers never write past the caller's buffer: the bytes used by the
+segments they report (`*buflen` on return) never exceed the buffer they were given.  What does not fit is omitted
+(the exact truncation behaviour is `split_path_buf_eq_spec_partial`'s fold). -/
+theorem split_buf_never_overflows (input : Bytes) (buflen : Nat) :
+    (∃ segs, MU.splitPath input buflen = R.ok segs ∧ usedBy segs ≤ buflen) ∧
+    (∃ segs, MU.splitQuery input buflen = R.ok segs ∧ usedBy segs ≤ buflen) := by
+  constructor
+  · exact ⟨_, splitPathBuf_fold input buflen,
+      fold_inv pathStepBuf pathStepBuf_inv _ ⟨buflen, []⟩ (by simp [usedBy])⟩
+  · exact ⟨_, splitQueryBuf_fold input buflen,
+      fold_inv writeS writeS_inv _ ⟨buflen, []⟩ (by simp [usedBy])⟩
+
+-- "a/./%2e%2E/b%41c/" in a buffer of 17 + 2·5 + 1 bytes; the documented 17 + 2·5 are enough too (small segments)
+example : Spec.Uri.splitPath [97, 47, 46, 47, 37, 50, 101, 37, 50, 69, 47, 98, 37, 52, 49, 99, 47] = some [[98, 65, 99], []] ∧
+    (rawSegs pathStop pathSep [97, 47, 46, 47, 37, 50, 101, 37, 50, 69, 47, 98, 37, 52, 49, 99, 47]).length = 5 ∧
+    MU.splitPath [97, 47, 46, 47, 37, 50, 101, 37, 50, 69, 47, 98, 37, 52, 49, 99, 47] 28 = R.ok [[98, 65, 99], []] ∧
+    MU.splitPath [97, 47, 46, 47, 37, 50, 101, 37, 50, 69, 47, 98, 37, 52, 49, 99, 47] 27 = R.ok [[98, 65, 99], []] := by decide
+-- "a&b%26c" : 7 + 2·2 + 1
+example : Spec.Uri.splitQuery [97, 38, 98, 37, 50, 54, 99] = some [[97], [98, 38, 99]] ∧
+    MU.splitQuery [97, 38, 98, 37, 50, 54, 99] 12 = R.ok [[97], [98, 38, 99]] := by decide
+-- below the minimum what does not fit is silently omitted (D16b): "aaa/bbbbb/c" in 7 bytes gives "aaa", "c"
+example : MU.splitPath [97, 97, 97, 47, 98, 98, 98, 98, 98, 47, 99] 7 = R.ok [[97, 97, 97], [99]] := by decide
+
 end Coap.C16
